@@ -14,6 +14,7 @@ import (
 	"fmt"
 	"io"
 	"log"
+	"net/http"
 	"net/url"
 	"os"
 	"sort"
@@ -59,11 +60,49 @@ type c10Fix struct {
 	pending  string
 	pendAt   time.Time
 	rebuilds int
+	blocked  bool // the hub of this child no longer serves (liveness probe failed): the child must be replaced
+}
+
+// dial opens a websocket connection to the hub (like hdSystem.connect, but with a bound on the
+// handshake and an error instead of the end of the test: the liveness probe connects to a hub that may
+// serve nobody any more; the reader never answers a dial-out request by itself - in state 4 the request
+// must stay pending until the frame under test arrives).
+func (f *c10Fix) dial(handshake time.Duration) (*hdClient, error) {
+	f.nextConn++
+	u := "ws" + strings.TrimPrefix(f.sys.server.URL, "http") + "/spreed"
+	hdr := http.Header{}
+	hdr.Set("User-Agent", fmt.Sprintf("hdconn-%d", f.nextConn))
+	hdr.Set("X-Real-IP", fmt.Sprintf("198.51.100.%d", 1+f.nextConn%200)) // the test server's peer is loopback = trusted by default
+	dialer := *websocket.DefaultDialer
+	dialer.HandshakeTimeout = handshake
+	conn, _, err := dialer.Dial(u, hdr)
+	if err != nil {
+		return nil, err
+	}
+	c := &hdClient{idx: f.nextConn, conn: conn, gone: make(chan struct{})}
+	f.sys.clients[c.idx] = c
+	go func() {
+		defer close(c.gone)
+		for {
+			_, data, err := c.conn.ReadMessage()
+			c.mu.Lock()
+			if err != nil {
+				c.closed = true
+				c.mu.Unlock()
+				return
+			}
+			c.msgs = append(c.msgs, data)
+			c.mu.Unlock()
+		}
+	}()
+	return c, nil
 }
 
 func (f *c10Fix) newConn() *hdClient {
-	f.nextConn++
-	c := f.sys.connect(f.nextConn, fmt.Sprintf("198.51.100.%d", 1+f.nextConn%200))
+	c, err := f.dial(45 * time.Second)
+	if err != nil {
+		f.t.Fatalf("dial: %v", err)
+	}
 	f.sync(c) // the welcome message has arrived by then
 	c.take()
 	return c
@@ -79,6 +118,123 @@ func (f *c10Fix) sync(c *hdClient) bool {
 		return false
 	}
 	return c.waitForId(id, 20*time.Second)
+}
+
+// ---- liveness ("other sessions keep working") ----------------------------------------------------------
+// After every frame: (1) a request of the bystander that needs the hub's session table (a message
+// addressed to a session id: its own, so nothing is delivered) must have been processed - told by the
+// answer to the marker behind it - and (2) a new connection must be greeted (the welcome message is sent
+// after the connection has been entered into the hub's tables) and removed again, each within
+// c10LiveBound.  (3) reading the hub's tables for the digest must end within the bound as well.  A miss
+// is the direct observation "blocked" (o_live = false), like the exit of the process is for o_alive:
+// the process is alive, but somebody holds a lock of the hub for ever.  The hub of this child is then
+// useless; the child ends and the parent continues with a new one.
+const c10LiveBound = 10 * time.Second
+
+func (f *c10Fix) syncWithin(c *hdClient, bound time.Duration) bool {
+	f.seq++
+	id := fmt.Sprintf("hdsync-c10-%d", f.seq)
+	if err := c.send([]byte(fmt.Sprintf(`{"id":"%s","type":"message"}`, id))); err != nil {
+		return false
+	}
+	return c.waitForId(id, bound)
+}
+
+func c10Within(bound time.Duration, fn func()) bool {
+	done := make(chan struct{})
+	go func() {
+		defer close(done)
+		fn()
+	}()
+	select {
+	case <-done:
+		return true
+	case <-time.After(bound):
+		return false
+	}
+}
+
+func (f *c10Fix) probeLive() (live bool, note string) {
+	// a new connection
+	c, err := f.dial(c10LiveBound)
+	if err != nil {
+		return false, "a new connection was not accepted within the bound: " + err.Error()
+	}
+	conn := c.conn
+	welcome := func() bool {
+		c.mu.Lock()
+		defer c.mu.Unlock()
+		for _, m := range c.msgs {
+			var sm ServerMessage
+			if sm.UnmarshalJSON(m) == nil && sm.Type == "welcome" && sm.Welcome != nil {
+				return true
+			}
+		}
+		return false
+	}
+	start := time.Now()
+	stuck := false
+	for !welcome() && !stuck && time.Since(start) < c10LiveBound && !c.isClosed() {
+		time.Sleep(100 * time.Microsecond)
+		// Not greeted after a second (normally: well under a millisecond): look at the hub's lock.  When it
+		// cannot be taken at any of 100 attempts spread over half a second, somebody holds it for good (the
+		// hub holds it for microseconds) and there is no point in waiting for the rest of the bound.
+		if time.Since(start) > time.Second && time.Since(start) < c10LiveBound-time.Second {
+			stuck = true
+			for i := 0; i < 100 && stuck && !welcome(); i++ {
+				if f.sys.hub.mu.TryLock() {
+					f.sys.hub.mu.Unlock()
+					stuck = false
+				} else {
+					time.Sleep(5 * time.Millisecond)
+				}
+			}
+			if !stuck {
+				time.Sleep(20 * time.Millisecond)
+			}
+		}
+	}
+	if !welcome() {
+		conn.Close()
+		if stuck {
+			return false, "a new connection did not get the welcome message (1.5 s; the hub's lock was held all the time)"
+		}
+		return false, "a new connection did not get the welcome message within the bound"
+	}
+	// ... is served (the marker is answered) and is forgotten again when it closes
+	if !f.syncWithin(c, c10LiveBound) {
+		conn.Close()
+		return false, "a new connection was greeted but its first message was not answered within the bound"
+	}
+	conn.Close()
+	select {
+	case <-c.gone:
+	case <-time.After(c10LiveBound):
+		return false, "closing a new connection did not end within the bound"
+	}
+	delete(f.sys.clients, c.idx)
+	// ... which the hub has done when the connection is no longer in its list of connections
+	// without session (removed under the hub's lock when the read pump has ended)
+	agent := fmt.Sprintf("hdconn-%d", c.idx)
+	if !c10Within(c10LiveBound, func() {
+		for {
+			found := false
+			f.sys.hub.mu.RLock()
+			for hc := range f.sys.hub.expectHelloClients {
+				if hc.UserAgent() == agent {
+					found = true
+				}
+			}
+			f.sys.hub.mu.RUnlock()
+			if !found {
+				return
+			}
+			time.Sleep(100 * time.Microsecond)
+		}
+	}) {
+		return false, "the hub did not let go of a closed connection within the bound"
+	}
+	return true, ""
 }
 
 func (f *c10Fix) request(c *hdClient, id string, msg map[string]interface{}) *ServerMessage {
@@ -228,6 +384,7 @@ func (f *c10Fix) offPending(d *hdDigest) int {
 }
 
 var c10AllPerms = []string{"publish-audio", "publish-video", "publish-screen", "publish-media", "control", "transient-data"}
+var c10NoControlPerms = []string{"publish-audio", "publish-video", "publish-screen", "publish-media", "transient-data"}
 
 func (f *c10Fix) ensure(st int) *c10StateFix {
 	f.ensureBystander()
@@ -246,11 +403,15 @@ func (f *c10Fix) ensure(st int) *c10StateFix {
 		sf.conn = f.newConn()
 	case 1:
 		sf.conn = f.newConn()
-		sf.pub, sf.priv = f.helloV1(sf.conn, "user1")
-	case 2, 5:
+		sf.pub, sf.priv = f.helloV1(sf.conn, c10SelfUser)
+	case 2, 5, 8:
 		sf.conn = f.newConn()
-		sf.pub, sf.priv = f.helloV1(sf.conn, "user1")
-		f.join(sf.conn, c10RoomId, c10AllPerms)
+		sf.pub, sf.priv = f.helloV1(sf.conn, c10SelfUser)
+		perms := c10AllPerms
+		if st == 8 {
+			perms = c10NoControlPerms
+		}
+		f.join(sf.conn, c10RoomId, perms)
 		if st == 5 {
 			f.drop(sf.conn)
 			f.sys.settle()
@@ -501,6 +662,12 @@ func (f *c10Fix) runResume(s *c10Step, emitStart func()) {
 	if bclosed {
 		s.ByOk = false
 	}
+	s.Live, s.LiveNote = f.probeLive()
+	if !s.Live {
+		f.blocked = true
+		s.DSame, s.Off, s.Api, s.Done = true, 0, 0, true
+		return
+	}
 	after, offAfter := f.digestText()
 	s.DSame = before == after
 	s.Off = offAfter - offBefore // minus the number of messages that were delivered
@@ -572,12 +739,19 @@ func (f *c10Fix) run(s *c10Step, emitStart func()) {
 		}
 		s.Replies = append(s.Replies, c10Reply(m, rev))
 	}
-	// the bystander: still served, still in its room
+	// the bystander: still served (a request that needs the hub's session table - a message to a session
+	// id, its own, so that nothing is delivered - and the marker behind it), still in its room
+	f.seq++
+	f.by.send([]byte(fmt.Sprintf(`{"id":"hdprobe-%d","type":"message","message":{"recipient":{"type":"session","sessionid":%q},"data":{"type":"hdprobe"}}}`, f.seq, f.byPub))) // nolint
 	s.ByOk = f.sync(f.by)
 	bmsgs, bclosed := f.by.take()
 	s.By = []string{}
 	for _, m := range bmsgs {
 		if bytes.Contains(m, []byte(`"id":"hdsync`)) {
+			continue
+		}
+		if bytes.Contains(m, []byte(`"hdprobe"`)) {
+			s.By = append(s.By, "BOther") // its own message came back
 			continue
 		}
 		s.By = append(s.By, c10Bystander(m, sf.pub))
@@ -586,11 +760,53 @@ func (f *c10Fix) run(s *c10Step, emitStart func()) {
 	if bclosed {
 		s.ByOk = false
 	}
-	if sess := f.sys.hub.GetSessionByPublicId(f.byPub); sess == nil || sess.GetRoom() == nil {
+	// is the hub still serving?  (before anything that reads the hub's tables: a reader would wait for ever, too)
+	if !s.ByOk && !bclosed {
+		s.Live, s.LiveNote = false, "the bystander's message to a session id was not processed within the bound"
+	} else {
+		s.Live, s.LiveNote = f.probeLive()
+	}
+	var after string
+	var offAfter int
+	byThere := false
+	if s.Live {
+		if !c10Within(c10LiveBound, func() {
+			sess := f.sys.hub.GetSessionByPublicId(f.byPub)
+			byThere = sess != nil && sess.GetRoom() != nil
+			after, offAfter = f.digestText()
+		}) {
+			s.Live, s.LiveNote = false, "reading the hub's tables did not end within the bound"
+		}
+	}
+	if !s.Live {
+		// nothing else can be observed on this hub
+		f.blocked = true
+		s.DSame, s.Off, s.Api, s.Done = true, 0, 0, true
+		return
+	}
+	if !byThere {
 		s.ByOk = false
 	}
-	after, offAfter := f.digestText()
 	s.DSame = before == after
+	if !s.DSame {
+		// where the two digests part (diagnosis only)
+		k := 0
+		for k < len(before) && k < len(after) && before[k] == after[k] {
+			k++
+		}
+		lo := k - 60
+		if lo < 0 {
+			lo = 0
+		}
+		cut := func(t string) string {
+			hi := k + 100
+			if hi > len(t) {
+				hi = len(t)
+			}
+			return t[lo:hi]
+		}
+		s.DDiff = cut(before) + " => " + cut(after)
+	}
 	s.Off = offAfter - offBefore
 	if offBefore < 0 || offAfter < 0 {
 		s.Off = -1000 // the session without connection disappeared
@@ -659,6 +875,13 @@ func c10Child(t *testing.T, batchFile, logFile string) {
 			break
 		}
 		emit(c10LogLine{K: it.K, Ph: "done", Obs: &st})
+		if f.blocked {
+			// the hub of this process serves nobody any more: the parent goes on with a new child
+			emit(c10LogLine{K: it.K, Ph: "blocked", Note: st.LiveNote})
+			w.Flush()
+			lf.Close()
+			os.Exit(0)
+		}
 	}
 	emit(c10LogLine{K: len(items), Ph: "end", Note: fmt.Sprintf("rebuilds=%d unsettled=%d", f.rebuilds, sys.unsettled)})
 	w.Flush()
